@@ -1306,15 +1306,18 @@ fn cgr_reuse_sequence(ctx: &mut Ctx, kmer_mode: bool, steps: &[&str]) {
             return viol(ctx, "row-count", steps.len() * 10 + i, format!("{what}: run {i} (after {:?}): {} rows for {} records", step, lines.len(), records.len()), argv);
         }
         for (ri, rec) in records.iter().enumerate() {
-            let exp = if kmer_mode {
+            // values, not spellings of numbers (see c11_file)
+            let exp: Vec<Vec<f64>> = if kmer_mode {
                 let mut fresh = OligoCgrComputer::new("-".into(), "-".into(), k, 16);
                 fresh.set_norm(norm);
-                fresh.verif_vectorise_one(rec).unwrap().iter().map(|v| format!("({},{},{})", v.0 .0, v.0 .1, v.1)).collect::<Vec<_>>().join(" ")
+                fresh.verif_vectorise_one(rec).unwrap().iter().map(|v| vec![v.0 .0, v.0 .1, v.1]).collect()
             } else {
-                cgr_row(&CgrComputer::new("-".into(), "-".into(), 16).verif_vectorise_one(rec).unwrap())
+                CgrComputer::new("-".into(), "-".into(), 16).verif_vectorise_one(rec).unwrap().iter().map(|p| vec![p.0, p.1]).collect()
             };
-            if lines[ri] != exp {
-                return viol(ctx, "row-order-or-value", steps.len() * 10 + i, format!("{what}: run {i} (after {:?}): row {ri} is {:?}, a fresh computer with the same settings gives {:?}", step, &lines[ri][..lines[ri].len().min(60)], &exp[..exp.len().min(60)]), argv);
+            let got = parse_tuples(lines[ri], if kmer_mode { 3 } else { 2 });
+            let same = matches!(&got, Some(g) if g.len() == exp.len() && g.iter().zip(exp.iter()).all(|(a, b)| a.iter().zip(b.iter()).all(|(x, y)| x.to_bits() == y.to_bits())));
+            if !same {
+                return viol(ctx, "row-order-or-value", steps.len() * 10 + i, format!("{what}: run {i} (after {:?}): row {ri} is {:?}, a fresh computer with the same settings gives the values {:?}", step, &lines[ri][..lines[ri].len().min(60)], &exp[..exp.len().min(4)]), argv);
             }
         }
     }
